@@ -163,3 +163,128 @@ theorem C16_untouched (a : Archive) (files : List Rel) (copied : List (Str × Me
     ∀ p ∈ copied, a.read p.1 = .ok p.2 := fun p hp => (copyBut_content a _ _ copied h p hp).1
 
 end D2P
+
+namespace D2P
+
+/-! ## reading the saved archive back -/
+
+/-- in an association list with distinct keys, the key determines the entry -/
+theorem id_inj_pairs {β : Type} : ∀ (d : List (Str × β)), (d.map (·.1)).Nodup → ∀ x ∈ d, ∀ y ∈ d, x.1 = y.1 → x = y := by
+  intro d
+  induction d with
+  | nil => intro _ x hx; simp at hx
+  | cons z d ih =>
+    intro hn x hx y hy hxy
+    simp only [List.map_cons, List.nodup_cons] at hn
+    rcases List.mem_cons.1 hx with ex | hx' <;> rcases List.mem_cons.1 hy with ey | hy'
+    · rw [ex, ey]
+    · exfalso; apply hn.1; rw [← ex, hxy]; exact List.mem_map.2 ⟨y, hy', rfl⟩
+    · exfalso; apply hn.1; rw [← ey, ← hxy]; exact List.mem_map.2 ⟨x, hx', rfl⟩
+    · exact ih hn.2 x hx' y hy' hxy
+
+theorem writeRoots_spec (o : Opts) (a : Archive) (files : List Rel) : ∀ (ts : List (Str × Rel)) (out : List (Str × Member)),
+    writeRoots o a files ts = .ok out →
+    ∀ p m, (p, m) ∈ out → ∃ r cr, (p, r) ∈ ts ∧ rootElement o a files r = .ok cr ∧ m = Member.xml cr.2 := by
+  intro ts
+  induction ts with
+  | nil => intro out h p m hm; simp only [writeRoots] at h; have := pure_ok h; subst this; simp at hm
+  | cons t ts ih =>
+    obtain ⟨path, r⟩ := t
+    intro out h p m hm
+    simp only [writeRoots] at h
+    obtain ⟨cr, hcr, h⟩ := bind_ok h
+    obtain ⟨ms, hms, h⟩ := bind_ok h
+    have := pure_ok h; subst this
+    rcases List.mem_cons.1 hm with e | hm
+    · cases e; exact ⟨r, cr, by simp, hcr, rfl⟩
+    · obtain ⟨r', cr', h1, h2, h3⟩ := ih ms hms p m hm
+      exact ⟨r', cr', by simp [h1], h2, h3⟩
+
+/-- `zipf.read` of a name: any member carrying that name, when all members of that name agree -/
+theorem read_of_agree (ms : List (Str × Member)) (n : Str) (m : Member)
+    (hex : ∃ x ∈ ms, x.1 = n) (hag : ∀ x ∈ ms, x.1 = n → x.2 = m) :
+    (Archive.mk ms).read n = .ok m := by
+  unfold Archive.read
+  cases hf : ms.reverse.find? (fun x => x.1 == n) with
+  | none =>
+    obtain ⟨x, hx, hxn⟩ := hex
+    have := List.find?_eq_none.1 hf x (List.mem_reverse.2 hx)
+    simp [hxn] at this
+  | some x =>
+    have hx := List.mem_reverse.1 (List.mem_of_find?_eq_some hf)
+    have hxn : x.1 = n := by simpa using List.find?_some hf
+    simp only [pure, Except.pure, hag x hx hxn]
+
+/-- **C16: a rewritten member, read back.** The saved archive holds, under the name of every content
+or relationships part, exactly the element tree the reader exposes for it (`File.root_element`). -/
+theorem C16_read_back_target (o : Opts) (a out : Archive) (files : List Rel) (hf : a.files = .ok files)
+    (h : save o a = .ok out) (p : Str) (r : Rel) (hp : (p, r) ∈ saveTargets a files) :
+    ∃ cr, rootElement o a files r = .ok cr ∧ out.read p = .ok (Member.xml cr.2) := by
+  unfold save at h
+  rw [hf] at h
+  simp only [ok_bind] at h
+  obtain ⟨copied, hc, h⟩ := bind_ok h
+  obtain ⟨written, hw, h⟩ := bind_ok h
+  have := pure_ok h; subst this
+  have hnd := C16_written_once a files
+  have hwn := writeRoots_names o a files _ written hw
+  -- the entry of `p` among the written members
+  have hpk : p ∈ (saveTargets a files).keys := List.mem_map.2 ⟨(p, r), hp, rfl⟩
+  have hpw : p ∈ written.map (·.1) := by rw [hwn]; exact hpk
+  obtain ⟨x, hx, hxp⟩ := List.mem_map.1 hpw
+  obtain ⟨r', cr, hr', hcr, hm⟩ := writeRoots_spec o a files _ written hw x.1 x.2 hx
+  -- keys are distinct: the Rel recorded for `p` is `r`
+  have hrr : r' = r := by
+    have hk : ((saveTargets a files).map (·.1)).Nodup := hnd
+    have := id_inj_pairs (saveTargets a files) hk (x.1, r') hr' (p, r) hp (by simpa using hxp)
+    exact (Prod.mk.inj this).2
+  subst hrr
+  refine ⟨cr, hcr, ?_⟩
+  apply read_of_agree
+  · exact ⟨x, by simp [hx], hxp⟩
+  · intro y hy hyn
+    rcases List.mem_append.1 hy with hy | hy
+    · -- not among the copied ones
+      have := (copyBut_content a _ _ copied hc y hy).2
+      rw [hyn] at this
+      have : ¬ p ∈ (saveTargets a files).keys := by simpa using this
+      exact absurd hpk this
+    · obtain ⟨r2, cr2, hr2, hcr2, hm2⟩ := writeRoots_spec o a files _ written hw y.1 y.2 hy
+      have hk : ((saveTargets a files).map (·.1)).Nodup := hnd
+      have := id_inj_pairs (saveTargets a files) hk (y.1, r2) hr2 (p, r') hp (by simpa using hyn)
+      have e2 : r2 = r' := (Prod.mk.inj this).2
+      subst e2
+      rw [hcr] at hcr2; cases hcr2
+      exact hm2
+
+/-- **C16: an untouched member, read back.** Every other name of the input reads, from the saved
+archive, as it reads from the input. -/
+theorem C16_read_back_other (o : Opts) (a out : Archive) (files : List Rel) (hf : a.files = .ok files)
+    (h : save o a = .ok out) (n : Str) (hn : n ∈ a.namelist) (hnt : n ∉ (saveTargets a files).keys) :
+    out.read n = a.read n := by
+  unfold save at h
+  rw [hf] at h
+  simp only [ok_bind] at h
+  obtain ⟨copied, hc, h⟩ := bind_ok h
+  obtain ⟨written, hw, h⟩ := bind_ok h
+  have := pure_ok h; subst this
+  have hcn := copyBut_names a _ _ copied hc
+  have hwn := writeRoots_names o a files _ written hw
+  have hnc : n ∈ copied.map (·.1) := by
+    rw [hcn]; exact List.mem_filter.2 ⟨hn, by simpa using hnt⟩
+  obtain ⟨x, hx, hxn⟩ := List.mem_map.1 hnc
+  have hxr := (copyBut_content a _ _ copied hc x hx).1
+  rw [hxn] at hxr
+  rw [hxr]
+  apply read_of_agree
+  · exact ⟨x, by simp [hx], hxn⟩
+  · intro y hy hyn
+    rcases List.mem_append.1 hy with hy | hy
+    · have := (copyBut_content a _ _ copied hc y hy).1
+      rw [hyn, hxr] at this
+      exact (Except.ok.inj this).symm
+    · have : n ∈ written.map (·.1) := List.mem_map.2 ⟨y, hy, hyn⟩
+      rw [hwn] at this
+      exact absurd this hnt
+
+end D2P
